@@ -316,247 +316,107 @@ class Envelope:
         for s in states:
             assert s in [self.fock, self.polarization]
 
-        outcomes = {}
-        reshape_shape = []
+        from photon_weave.state.polarization import PolarizationLabel
+
+        # The states measured by this call: only the given ones if they are measured
+        # separately, otherwise the whole envelope
+        to_measure: List[Union["Fock", "Polarization"]]
+        if separate_measurement and len(states) > 0:
+            to_measure = [
+                s
+                for s in [self.polarization, self.fock]
+                if any(s is given for given in states)
+            ]
+        else:
+            to_measure = [self.polarization, self.fock]
+
+        outcomes: Dict["BaseState", int] = {}
         if self.state is None:
+            # Not combined here: every state is measured where it lives
             for s in [self.polarization, self.fock]:
-                out = s.measure()
-                for k, v in out.items():
-                    outcomes[k] = v
+                if any(s is m for m in to_measure) and not s.measured:
+                    out = s.measure(separate_measurement=True, destructive=destructive)
+                    for k, v in out.items():
+                        outcomes[k] = v
         else:
             assert isinstance(self.fock.index, int)
             assert isinstance(self.polarization.index, int)
-
-            reshape_shape = [-1, -1]
-            reshape_shape[self.fock.index] = self.fock.dimensions
-            reshape_shape[self.polarization.index] = self.polarization.dimensions
-
+            assert isinstance(self.state, jnp.ndarray)
             C = Config()
+            level = self.expansion_level
+            dims = [0, 0]
+            dims[self.fock.index] = self.fock.dimensions
+            dims[self.polarization.index] = self.polarization.dimensions
+            if level == ExpansionLevel.Vector:
+                # amplitude tensor with one axis per state
+                ps = self.state.reshape(dims)
+            else:
+                # density tensor with the axes row_0, row_1, col_0, col_1
+                ps = self.state.reshape([*dims, *dims])
 
-            if self.expansion_level == ExpansionLevel.Vector:
-                assert isinstance(self.state, jnp.ndarray)
-                assert self.state.shape == (self.dimensions, 1)
-                reshape_shape.append(1)
-                ps = self.state.reshape(reshape_shape)
-
-                # 1. Measure Fock Part
-                if (
-                    (separate_measurement and self.fock in states)
-                    or len(states) == 0
-                    or len(states) == 2
-                ):
-                    probabilities = (
-                        jnp.abs(jnp.sum(ps, axis=self.polarization.index)).flatten()
-                        ** 2
-                    )
-                    key = C.random_key
-                    choice = int(
-                        jax.random.choice(
-                            key, a=jnp.arange(len(probabilities)), p=probabilities
-                        )
-                    )
-                    outcomes[self.fock] = choice
-
-                    # Construct post measurement state
-                    post_measurement = jnp.take(ps, choice, self.polarization.index)
-                    ps = jnp.take(ps, choice, axis=self.fock.index)
-
-                    einsum = "ij,kj->ikj"
-                    if self.fock.index == 0:
-                        ps = jnp.einsum(einsum, post_measurement, ps)
-                    elif self.fock.index == 1:
-                        ps = jnp.einsum(einsum, ps, post_measurement)
-
-                if (
-                    (separate_measurement and self.polarization in states)
-                    or len(states) == 0
-                    or len(states) == 2
-                ):
-                    probabilities = (
-                        jnp.abs(jnp.sum(ps, axis=self.fock.index)).flatten() ** 2
-                    )
-                    key = C.random_key
-                    choice = int(
-                        jax.random.choice(
-                            key, a=jnp.arange(len(probabilities)), p=probabilities
-                        )
-                    )
-                    outcomes[self.polarization] = choice
-
-                    # Construct post measurement state
-                    post_measurement = jnp.take(ps, choice, self.polarization.index)
-                    ps = jnp.take(ps, choice, axis=self.polarization.index)
-                    einsum = "ij,kj->ikj"
-                    if self.fock.index == 0:
-                        ps = jnp.einsum(einsum, ps, post_measurement)
-                    else:
-                        ps = jnp.einsum(einsum, post_measurement, ps)
-
-            if self.expansion_level == ExpansionLevel.Matrix:
-                assert isinstance(self.state, jnp.ndarray)
-                assert self.state.shape == (self.dimensions, self.dimensions)
-                reshape_shape = [*reshape_shape, *reshape_shape]
-                transpose_pattern = [0, 2, 1, 3]
-                ps = self.state.reshape(reshape_shape).transpose(transpose_pattern)
-
-                # 1. Measure Fock Part
-                if (
-                    (separate_measurement and self.fock in states)
-                    or len(states) == 0
-                    or len(states) == 2
-                ):
-                    if self.fock.index == 0:
-                        subspace = jnp.einsum("bcaa->bc", ps)
-                    else:
-                        subspace = jnp.einsum("aabc->bc", ps)
-                    probabilities = jnp.diag(subspace).real
-                    probabilities /= jnp.sum(probabilities)
-                    key = C.random_key
-                    choice = int(
-                        jax.random.choice(
-                            key, a=jnp.arange(len(probabilities)), p=probabilities
-                        )
-                    )
-                    outcomes[self.fock] = choice
-
-                    # Reconstruct post measurement state
-                    indices: List[Union[slice, int]] = [slice(None)] * len(ps.shape)
-                    indices[self.fock.index] = outcomes[self.fock]
-                    indices[self.fock.index + 1] = outcomes[self.fock]
-                    ps = ps[tuple(indices)]
-
-                    post_measurement = jnp.zeros(
-                        (self.fock.dimensions, self.fock.dimensions)
-                    )
-                    post_measurement = post_measurement.at[choice, choice].set(1)
-                    if self.fock.index == 0:
-                        ps = jnp.einsum("ab,cd->abcd", post_measurement, ps)
-                    else:
-                        ps = jnp.einsum("ab,cd->abcd", ps, post_measurement)
-
-                # 2. Measure Polarization Part
-                if (
-                    (separate_measurement and self.polarization in states)
-                    or len(states) == 0
-                    or len(states) == 2
-                ):
-                    if self.polarization.index == 1:
-                        subspace = jnp.einsum("aabc->bc", ps)
-                    else:
-                        subspace = jnp.einsum("bcaa->bc", ps)
-                    probabilities = jnp.diag(subspace).real
-                    probabilities /= jnp.sum(probabilities)
-                    key = C.random_key
-                    choice = int(
-                        jax.random.choice(
-                            key, a=jnp.arange(len(probabilities)), p=probabilities
-                        )
-                    )
-                    outcomes[self.polarization] = choice
-
-                    # Reconstruct post measurement state
-                    indices = [slice(None)] * len(ps.shape)
-                    indices[self.polarization.index] = outcomes[self.polarization]
-                    indices[self.polarization.index + 1] = outcomes[self.polarization]
-                    ps = ps[tuple(indices)]
-
-                    post_measurement = jnp.zeros(
-                        (self.polarization.dimensions, self.polarization.dimensions)
-                    )
-                    post_measurement = post_measurement.at[choice, choice].set(1)
-
-                    if self.polarization.index == 0:
-                        ps = jnp.einsum("ab,cd->abcd", post_measurement, ps)
-                    else:
-                        ps = jnp.einsum("ab,cd->abcd", ps, post_measurement)
-
-            # Handle post measurement processes
-            ps = self.state.reshape(reshape_shape)
-            if self.expansion_level == ExpansionLevel.Vector:
-                if separate_measurement and len(states) == 1:
-                    if self.fock not in states:
-                        self.fock.state = jnp.take(
-                            ps, outcomes[self.polarization], self.polarization.index
-                        )
-                        self.fock.expansion_level = ExpansionLevel.Vector
-                        self.fock.index = None
-                        if destructive:
-                            self.polarization._set_measured()
-                        else:
-                            self.polarization.state = jnp.zeros((2, 1))
-                            self.polarization.state.at[
-                                1, outcomes[self.polarization]
-                            ].set(1)
-                            self.polarization.index = None
-                    if self.polarization not in states:
-                        self.polarization.state = jnp.take(
-                            ps, outcomes[self.fock], self.fock.index
-                        )
-                        self.polarization.expansion_level = ExpansionLevel.Vector
-                        self.polarization.index = None
-                        if destructive:
-                            self.fock._set_measured()
-                        else:
-                            self.fock.state = outcomes[self.fock]
-                            self.fock.expansion_level = ExpansionLevel.Label
-                            self.fock.index = None
+            for s in to_measure:
+                assert isinstance(s.index, int)
+                axis = s.index
+                # Marginal distribution of the measured state, conditioned on the
+                # outcomes already drawn (ps holds the projected state)
+                if level == ExpansionLevel.Vector:
+                    probabilities = jnp.sum(jnp.abs(ps) ** 2, axis=1 - axis)
                 else:
-                    if self.fock.index == 0:
-                        self.fock.state = jnp.einsum("ijk->ik", ps)
-                    else:
-                        self.fock.state = jnp.einsum("ijk->jk", ps)
-                    self.fock.expansion_level = ExpansionLevel.Vector
-                    self.fock.index = None
+                    reduced = jnp.einsum("abcb->ac" if axis == 0 else "abac->bc", ps)
+                    probabilities = jnp.diag(reduced).real
+                probabilities = probabilities / jnp.sum(probabilities)
+                key = C.random_key
+                choice = int(
+                    jax.random.choice(
+                        key, a=jnp.arange(len(probabilities)), p=probabilities
+                    )
+                )
+                outcomes[s] = choice
 
-                    if self.polarization.index == 0:
-                        self.polarization.state = jnp.einsum("ijk->ik", ps)
-                    else:
-                        self.polarization.state = jnp.einsum("ijk->jk", ps)
-                    self.polarization.expansion_level = ExpansionLevel.Vector
-                    self.polarization.index = None
-                    if destructive:
-                        self._set_measured()
-                        self.polarization._set_measured()
-                        self.fock._set_measured()
-            if self.expansion_level == ExpansionLevel.Matrix:
-                if separate_measurement and len(states) == 1:
-                    if self.fock not in states:
-                        if self.fock.index == 0:
-                            self.fock.state = jnp.einsum("abcb->ac", ps)
-                        elif self.fock.index == 1:
-                            self.fock.state = jnp.einsum("abac->bc", ps)
-                        self.fock.expansion_level = ExpansionLevel.Matrix
-                        self.fock.index = None
-                        if destructive:
-                            self.polarization._set_measured()
-                    if self.polarization not in states:
-                        if self.polarization.index == 0:
-                            self.polarization.state = jnp.einsum("abcb->ac", ps)
-                        elif self.polarization.index == 1:
-                            self.polarization.state = jnp.einsum("abac->bc", ps)
-                        self.polarization.expansion_level = ExpansionLevel.Matrix
-                        self.polarization.index = None
-                        if destructive:
-                            self.fock._set_measured()
+                # Project the product state onto the outcome
+                shape = [1, 1]
+                shape[axis] = dims[axis]
+                projector = jnp.zeros(dims[axis]).at[choice].set(1).reshape(shape)
+                if level == ExpansionLevel.Vector:
+                    ps = ps * projector
                 else:
-                    if self.fock.index == 0:
-                        self.fock.state = jnp.einsum("ikjk->ij", ps)
+                    ps = ps * projector.reshape([*shape, 1, 1])
+                    ps = ps * projector.reshape([1, 1, *shape])
+
+            # The states are moved back to their respective spaces
+            for s in [self.fock, self.polarization]:
+                if any(s is m for m in to_measure):
+                    continue
+                # Not measured: keeps the state conditioned on the partner's outcome
+                other = self.polarization if s is self.fock else self.fock
+                assert isinstance(other.index, int)
+                o = outcomes[other]
+                if level == ExpansionLevel.Vector:
+                    s.state = jnp.take(ps, o, axis=other.index).reshape(-1, 1)
+                    s.state = s.state / jnp.linalg.norm(s.state)
+                    s.expansion_level = ExpansionLevel.Vector
+                else:
+                    s.state = ps[o, :, o, :] if other.index == 0 else ps[:, o, :, o]
+                    s.state = s.state / jnp.trace(s.state)
+                    s.expansion_level = ExpansionLevel.Matrix
+                s.index = None
+                s.contract()
+            for s in to_measure:
+                if destructive:
+                    s._set_measured()
+                else:
+                    if s is self.polarization:
+                        s.state = (
+                            PolarizationLabel.H
+                            if outcomes[s] == 0
+                            else PolarizationLabel.V
+                        )
                     else:
-                        self.fock.state = jnp.einsum("kikj->ij", ps)
-                    self.fock.expansion_level = ExpansionLevel.Matrix
-                    self.fock.index = None
-                    if self.polarization.index == 0:
-                        self.polarization.state = jnp.einsum("ikjk->ij", ps)
-                    else:
-                        self.polarization.state = jnp.einsum("kikj->ij", ps)
-                    self.polarization.expansion_level = ExpansionLevel.Matrix
-                    self.polarization.index = None
-                    if destructive:
-                        self._set_measured()
-                        self.fock._set_measured()
-                        self.polarization._set_measured()
-            self.polarization.contract()
-            self.fock.contract()
+                        s.state = outcomes[s]
+                    s.expansion_level = ExpansionLevel.Label
+                    s.index = None
+            self.state = None
+            self._expansion_level = None
 
         if destructive:
             self._set_measured()
